@@ -145,9 +145,11 @@ Proof. exact idle_frame. Qed.
 
 (* RENDER LOOP with frame dropping (Terminal::run_render and its output queue, Render/Loop.v): per
    iteration poll; then - when frames_pending() exceeds TERMINAL_FRAMES_DROP (regenerated from the
-   source) - frames_drop(); clear(); only then the handler draws; then frame() (or nothing for
-   WaitNoFrame).  Because the clear() precedes the drawing, the forced repaint shows the surface the
-   handler drew for that iteration.  The terminal executes only what is delivered: every chunk (the
+   source) - frames_drop(); clear(); then - when the poll delivered a Resize event (same size; the
+   terminal keeps its contents) - clear() and a new renderer; only then the handler draws; then
+   frame() (or nothing for WaitNoFrame).  Because the clear() precedes the drawing, the forced
+   repaint shows the surface the handler drew for that iteration; because the drop precedes the
+   Resize, the ImageErase commands of its clear() are never dropped.  The terminal executes only what is delivered: every chunk (the
    commands between two polls) whole or not at all, a drop keeps a prefix of the pending chunks (interface proved for the real queue by C16_frames,
    C16_frames_flush_delimited, C16_render_loop_schema).
    For every session - what is drawn, how many
@@ -239,9 +241,9 @@ Proof. refute. Qed.
    images of the back buffer, the image stays on the terminal: the plain statement fails, the tolerant
    one (cells right, only that image too many) holds *)
 Definition stale_session : list iter :=
-  [mkiter 0 [[img 0%N 0%N; cell_default]] AWait None 1;
-   mkiter 1 [[cell_default; cell_default]] AWait None 1;
-   mkiter 0 [[chr 0%N 97%N; cell_default]] AWait (Some 40) 0].
+  [mkiter 0 [[img 0%N 0%N; cell_default]] AWait None 1 false;
+   mkiter 1 [[cell_default; cell_default]] AWait None 1 false;
+   mkiter 0 [[chr 0%N 97%N; cell_default]] AWait (Some 40) 0 false].
 
 Theorem C01_dropped_image_erase_refuted :
   oracle_ok overlap_oracle /\ good_iters overlap_oracle 1 2 stale_session
@@ -256,14 +258,14 @@ Proof.
 Qed.
 
 (* non-vacuity of C01_render_loop: 34 frames pile up (the tty takes nothing), the 35th iteration finds
-   33 > TERMINAL_FRAMES_DROP pending: frames_drop keeps the front chunk, clear, frame; then everything
-   is delivered *)
+   33 > TERMINAL_FRAMES_DROP pending: frames_drop keeps the front chunk, clear, a Resize event (clear, new
+   renderer), frame; then everything is delivered; the last iteration sees another Resize event *)
 Definition pile_session : list iter :=
-  repeat (mkiter 0 [[chr 1%N 97%N; chr 0%N 19990%N; cell_default]] AWait None 1) 17
-  ++ repeat (mkiter 0 [[chr 0%N 19990%N; cell_default; chr 2%N 98%N]] AWait None 1) 17
-  ++ [mkiter 0 [[chr 0%N 120%N; chr 0%N 19990%N; cell_default]] AWait None 1;
-      mkiter 9 [[chr 0%N 120%N; chr 0%N 121%N; cell_default]] AWaitNoFrame None 1;
-      mkiter 0 [[chr 0%N 120%N; chr 0%N 121%N; cell_default]] AWait None 1].
+  repeat (mkiter 0 [[chr 1%N 97%N; chr 0%N 19990%N; cell_default]] AWait None 1 false) 17
+  ++ repeat (mkiter 0 [[chr 0%N 19990%N; cell_default; chr 2%N 98%N]] AWait None 1 false) 17
+  ++ [mkiter 0 [[chr 0%N 120%N; chr 0%N 19990%N; cell_default]] AWait None 1 true;
+      mkiter 9 [[chr 0%N 120%N; chr 0%N 121%N; cell_default]] AWaitNoFrame None 1 false;
+      mkiter 0 [[chr 0%N 120%N; chr 0%N 121%N; cell_default]] AWait None 1 true].
 
 Example C01_render_loop_nonvacuous :
   good_iters overlap_oracle 1 3 pile_session
